@@ -47,6 +47,8 @@ def function_table():
     out += ["Mod(a, 2)", "Mod(a, b)", "Mod(-a, 2)", "Mod(a, -2)", "Mod(-a, -b)", "Mod(a * 8, 3)", "Mod(a + b, 0.5)", "Mod(t, 2)",
             "Mod(a, 2) * 3", "3 * Mod(a, 2)", "-Mod(a, 2)", "b / Mod(a + 0.3, 2)", "Mod(a, 2) / b", "Mod(a, 2) ** 2", "a - Mod(b, 3) * c",
             "-(p * Mod(k, 3))", "(4 - 8) / Mod(t + 0.3, 2)", "Mod(a, 2) + Mod(b, 3)", "Mod(Mod(a * 5, 3), 2)", "Mod(a, 2) - 1",
+            "cos(a + (b + (pi + c)))", "sin((a + (pi + b)) + c)", "tan(a / 4 + (b / 8 + (c / 8 + pi)))", "cos(a + (pi + b))", "sin(a - (pi - b))", "cos((a + b) + (c + (k + (pi + p))))", "sin(2 * (pi + a))", "cos(pi + a)", "sin(a + 2 * pi)", "cos(a + (b + (pi / 2 + c)))",
+            "exp(a + (b + (1.5 + c)))", "log(a + (b + (1.5 + c)))", "sqrt(a + (b + (c + 2)))",
             "floor(a * 3) / 2", "floor(-a * 3)", "floor(a) + floor(b)", "a - floor(a)", "floor(a / b)", "abs(a - 2)", "abs(-a) * abs(b - 1)",
             "sqrt(a * a + b * b)", "sqrt(a) * sqrt(b)", "exp(log(a + 1))", "log(exp(a))", "exp(a) * exp(b)", "exp(-a / 6.8)", "exp(2)", "exp(1)", "exp(1) * a",
             "exp(a) ** 2", "sqrt(exp(a))", "sin(a) ** 2 + cos(a) ** 2", "sin(pi * a)", "cos(2 * pi) * a", "tan(a / 4)", "atan(a) * 2 / pi", "pi", "pi * a ** 2", "3 * pi / 2"]
